@@ -8,6 +8,7 @@ import (
 	"os"
 	"runtime"
 	"strconv"
+	"strings"
 	"sync"
 	"sync/atomic"
 	"syscall"
@@ -724,6 +725,20 @@ func (m pModel) View() string {
 	s := fmt.Sprintf("view %d\n", m.ver)
 	if v.Text != nil {
 		s = *v.Text
+	}
+	if v.Pad > 0 {
+		var sb strings.Builder
+		for i := 0; i <= v.Pad; i++ {
+			if i == v.At {
+				fmt.Fprintf(&sb, "view %d", m.ver)
+			} else {
+				fmt.Fprintf(&sb, "row %02d ..........................", i)
+			}
+			if i < v.Pad {
+				sb.WriteByte('\n')
+			}
+		}
+		s = sb.String()
 	}
 	h.log(pEvent{Ev: "ViewEnd", Ver: pInt(m.ver), K: pInt(k)})
 	return s
